@@ -131,7 +131,7 @@ theorem stepU_Q {c1 c2 : Ctx} (h : QU c1 c2) (k : Nat) (h1 : k ≤ c1.position) 
 
 /-- the first run holds `m ++ [CR]` (and whatever behind it), the second `m ++ [CR, LF]` -/
 theorem stepU_crlf {cs cw : Ctx} (h : QU cs cw) (k g g' : Nat) (h1 : k ≤ cs.position) (h2 : k + 1 ≤ cw.position)
-    (hm : cw.buf.take k = cs.buf.take k) (hlf : cw.buf[k]? = some 10) (hq : NoQuotes (cw.buf.take (k + 1)))
+    (hm : cw.buf.take k = cs.buf.take k) (hlf : cw.buf[k]? = some 10) (hq : QuotesLineLocal (cw.buf.take (k + 1)))
     (hcr : (cw.buf.take k).getLast? = some 13) (hs : scanFrom g (cw.buf.take k) 0 = some (k, g')) :
     QU (step cs k) (step cw (k + 1)) := by
   obtain ⟨hp, w1, w2, hev⟩ := h
@@ -175,7 +175,7 @@ theorem stepU_lf {c1 c2 : Ctx} (h : QU c1 c2) (h1 : 1 ≤ c1.position) (hb : c1.
 
 /-! ## the scan when more bytes arrive, in general -/
 
-theorem scan_stable' (s y : Bytes) (k : Nat) (hq : NoQuotes (s ++ y))
+theorem scan_stable' (s y : Bytes) (k : Nat) (hq : QuotesLineLocal (s ++ y))
     (hx : k < s.length ∨ s.getLast? ≠ some 13 ∨ y.head? ≠ some 10) (hs : scan s = some k) : scan (s ++ y) = some k := by
   obtain ⟨f, hf⟩ := scan_exists ((s ++ y).length + 1) (by rw [List.length_append]; omega) hs
   obtain ⟨h1, h2⟩ := scanFrom_nl s _ _ _ _ hf
@@ -184,7 +184,7 @@ theorem scan_stable' (s y : Bytes) (k : Nat) (hq : NoQuotes (s ++ y))
   rw [this]
   rfl
 
-theorem scan_crlf (s y : Bytes) (hq : NoQuotes (s ++ 10 :: y)) (h13 : s.getLast? = some 13)
+theorem scan_crlf (s y : Bytes) (hq : QuotesLineLocal (s ++ 10 :: y)) (h13 : s.getLast? = some 13)
     (hs : scan s = some s.length) : scan (s ++ 10 :: y) = some (s.length + 1) := by
   obtain ⟨f, hf⟩ := scan_exists ((s ++ 10 :: y).length + 1) (by rw [List.length_append]; omega) hs
   have := scanFrom_crlf s y hq h13 _ _ _ hf
@@ -192,7 +192,7 @@ theorem scan_crlf (s y : Bytes) (hq : NoQuotes (s ++ 10 :: y)) (h13 : s.getLast?
   rw [this]
   rfl
 
-theorem scan_lf (y : Bytes) (hq : NoQuotes (10 :: y)) : scan (10 :: y) = some 1 := by
+theorem scan_lf (y : Bytes) (hq : QuotesLineLocal (10 :: y)) : scan (10 :: y) = some 1 := by
   have h1 : scan [10] = some 1 := by decide
   exact scan_stable' [10] y 1 hq (Or.inr (Or.inl (by decide))) h1
 
@@ -261,7 +261,7 @@ theorem QU.store_input {d1 d2 : Ctx} (h : QU d1 d2) (r0 : Bool) (y : Bytes) (hfi
     rw [uvis_input]; exact h.ev
 
 theorem loopU_split : ∀ (n : Nat) (c1 c2 : Ctx) (y : Bytes) (f1 f2 : Nat) (r1 r2 : Bool),
-    QU c1 c2 → content c2 = content c1 ++ y → NoQuotes (content c2) → (content c1).length ≤ n →
+    QU c1 c2 → content c2 = content c1 ++ y → QuotesLineLocal (content c2) → (content c1).length ≤ n →
     (content c1).length < f1 → (content c1).length + y.length < f2 →
     c1.position + y.length + 1 ≤ c1.bufLen →
     ∀ (r0 r3 : Bool) (g : Nat), (inputLoop f1 c1 0 r1).1.position + y.length < g →
@@ -322,7 +322,7 @@ theorem loopU_split : ∀ (n : Nat) (c1 c2 : Ctx) (y : Bytes) (f1 f2 : Nat) (r1 
           have hc' : content (step c2 k2) = content (step c1 k2) ++ y := by
             rw [s1, s2, hc, List.drop_append_of_le_length a2]
           exact ih ((content c1).length - k2) (by omega) _ _ y g1 g2 true true hQ hc'
-            (by rw [s2]; exact noQuotes_drop hg _) (by omega) (by omega) (by omega) (by rw [s1p, s1b]; omega) r0 r3 g
+            (by rw [s2]; exact qll_drop hg _) (by omega) (by omega) (by omega) (by rw [s1p, s1b]; omega) r0 r3 g
       · -- the pending bytes are one message ending in CR, and `y` starts with the LF of that CR LF
         have hx1 : ¬ k < (content c1).length := fun h => hx (Or.inl h)
         have hx2 : (content c1).getLast? = some 13 := by
@@ -334,7 +334,7 @@ theorem loopU_split : ∀ (n : Nat) (c1 c2 : Ctx) (y : Bytes) (f1 f2 : Nat) (r1 
           cases y with
           | nil => simp at hx3
           | cons b t => simp at hx3; exact ⟨t, by rw [hx3]⟩
-        have hq2 : NoQuotes (content c1 ++ 10 :: y') := by rw [← hc]; exact hg
+        have hq2 : QuotesLineLocal (content c1 ++ 10 :: y') := by rw [← hc]; exact hg
         have hsc2 : scan (content c2) = some (k + 1) := by
           rw [hc, hk]; exact scan_crlf _ _ hq2 hx2 (by rw [← hk]; exact hsc)
         -- the first run: the message, then nothing pending
@@ -349,7 +349,7 @@ theorem loopU_split : ∀ (n : Nat) (c1 c2 : Ctx) (y : Bytes) (f1 f2 : Nat) (r1 
           rw [t2]; show content (step c1 k) ++ _ = _; rw [hnil]; rfl
         have hp3 := wf_pos_le t1
         rw [inputLoop_scan g _ 0 r3 hp3, hc3]
-        have hq3 : NoQuotes (10 :: y') := fun b hb => hq2 b (List.mem_append_right _ hb)
+        have hq3 : QuotesLineLocal (10 :: y') := qll_right hq2
         have e3 := scan_of_scanFrom g (10 :: y') (by
           rw [hpos0] at hg'; simpa using hg')
         rw [scan_lf y' hq3] at e3
@@ -384,7 +384,7 @@ theorem loopU_split : ∀ (n : Nat) (c1 c2 : Ctx) (y : Bytes) (f1 f2 : Nat) (r1 
               simp
             have hck : c1.buf.take k = content c1 := by rw [← hm1, hk, List.take_length]
             have hQ := stepU_crlf hq k f1 g1 hk1 hk2 hbk hlf
-              (by rw [hbk1]; exact fun b hb => hq2 b (List.mem_of_mem_take hb))
+              (by rw [hbk1]; exact qll_take hq2 _)
               (by rw [hbk, hck]; exact hx2) (by rw [hbk, hck]; exact h1)
             -- then the line feed alone in the first run
             have hQ3 : QU (store (emit (step c1 k) (.input r0)) (10 :: y')) (step c2 (k + 1)) :=
@@ -406,7 +406,7 @@ theorem loopU_split : ∀ (n : Nat) (c1 c2 : Ctx) (y : Bytes) (f1 f2 : Nat) (r1 
 /-! ## one chunk against two, any partition against the whole stream -/
 
 theorem inputU_split (c : Ctx) (h : WF c) (a b : Bytes)
-    (ha : a ≠ []) (hb : b ≠ []) (hfit : Fits c (a.length + b.length)) (hg : NoQuotes (content c ++ a ++ b)) :
+    (ha : a ≠ []) (hb : b ≠ []) (hfit : Fits c (a.length + b.length)) (hg : QuotesLineLocal (content c ++ a ++ b)) :
     RU (input (input c a) b) (input c (a ++ b)) := by
   unfold Fits at hfit
   have hab : a ++ b ≠ [] := by
@@ -433,7 +433,7 @@ theorem inputU_split (c : Ctx) (h : WF c) (a b : Bytes)
   exact RU.emit k1 k2 _ _
 
 theorem chunksU : ∀ (cs : List Bytes) (c : Ctx), WF c →
-    cs ≠ [] → (∀ x ∈ cs, x ≠ []) → Fits c cs.flatten.length → NoQuotes (content c ++ cs.flatten) →
+    cs ≠ [] → (∀ x ∈ cs, x ≠ []) → Fits c cs.flatten.length → QuotesLineLocal (content c ++ cs.flatten) →
     RU (cs.foldl input c) (input c cs.flatten) := by
   intro cs
   induction cs with
@@ -456,25 +456,33 @@ theorem chunksU : ∀ (cs : List Bytes) (c : Ctx), WF c →
       rw [hfl, List.length_append] at hfit
       obtain ⟨i1, i2, j, i4, i3⟩ := input_facts c x h hx (by omega)
       rw [List.foldl_cons]
-      have hg' : NoQuotes (content c ++ x ++ (y :: rest).flatten) := by
+      have hg' : QuotesLineLocal (content c ++ x ++ (y :: rest).flatten) := by
         rw [List.append_assoc, ← hfl]; exact hg
       have h1 := ih (input c x) (Bounds.input_wf c x h) (by simp) (fun z hz => hne z (by simp [hz]))
         (by unfold Fits; rw [i2]; omega)
         (by rw [i3, ← List.drop_append_of_le_length i4]
-            exact noQuotes_drop hg' _)
+            exact qll_drop hg' _)
       have h2 := inputU_split c h x (y :: rest).flatten hx hrne (by unfold Fits; omega) hg'
       rw [hfl]
       exact h1.trans h2
 
-/-- ANY two partitions of a quote-free stream: a user of the library sees no difference -/
-theorem chunking_invariant_noquote (c : Ctx) (h : WF c) (cs cs' : List Bytes)
+/-- ANY two partitions of a stream in which no quoted string contains a line terminator: a user of the
+library sees no difference -/
+theorem chunking_invariant_quotes (c : Ctx) (h : WF c) (cs cs' : List Bytes)
     (hne : (∀ x ∈ cs, x ≠ []) ∧ (∀ x ∈ cs', x ≠ [])) (hs : cs.flatten = cs'.flatten) (hcs : cs ≠ [])
-    (hfit : Fits c cs.flatten.length) (hq : NoQuotes (c.buf.take c.position ++ cs.flatten)) :
+    (hfit : Fits c cs.flatten.length) (hq : QuotesLineLocal (c.buf.take c.position ++ cs.flatten)) :
     UserObservable (cs.foldl input c) = UserObservable (cs'.foldl input c) := by
   have hcs' := flatten_ne_nil_of hne.1 hs hcs
   have h1 := chunksU cs c h hcs hne.1 hfit hq
   have h2 := chunksU cs' c h hcs' hne.2 (by rw [← hs]; exact hfit) (by rw [← hs]; exact hq)
   rw [← hs] at h2
   exact (h1.trans h2.symm).obs
+
+/-- ANY two partitions of a quote-free stream: a user of the library sees no difference -/
+theorem chunking_invariant_noquote (c : Ctx) (h : WF c) (cs cs' : List Bytes)
+    (hne : (∀ x ∈ cs, x ≠ []) ∧ (∀ x ∈ cs', x ≠ [])) (hs : cs.flatten = cs'.flatten) (hcs : cs ≠ [])
+    (hfit : Fits c cs.flatten.length) (hq : NoQuotes (c.buf.take c.position ++ cs.flatten)) :
+    UserObservable (cs.foldl input c) = UserObservable (cs'.foldl input c) :=
+  chunking_invariant_quotes c h cs cs' hne hs hcs hfit (noQuotes_qll hq)
 
 end ScpiVerif.Lemmas.Chunking
